@@ -5,8 +5,12 @@ package core
 
 import (
 	"com.tuntun.rangers/node/src/common"
+	"com.tuntun.rangers/node/src/middleware"
 	"com.tuntun.rangers/node/src/middleware/types"
 	"com.tuntun.rangers/node/src/storage/account"
+	"math/big"
+	"sort"
+	"time"
 )
 
 // Verification hooks H4/H8: exports of unexported operations so that an
@@ -42,4 +46,80 @@ func VerifExecuteBlock(accountdb *account.AccountDB, block *types.Block, situati
 func VerifResetChains() {
 	blockChainImpl = nil
 	groupChainImpl = nil
+}
+
+// VerifBuildBlock produces a valid block on top of an arbitrary parent header
+// whose state is in the local store, following CastBlock + runTransactions
+// step by step (same header fields, same executor situation, same tree and
+// hash functions) but without touching the chain, the pool or the caches. The
+// post-state is committed so that children of the block can be built as well.
+// The harness uses it in a separate builder process to manufacture block trees
+// (siblings, competing branches) that are then delivered to a node under test.
+func VerifBuildBlock(parent *types.BlockHeader, timestamp time.Time, height uint64, proveValue *big.Int, qn uint64, castor []byte, groupid []byte, transactions []*types.Transaction) (*types.Block, error) {
+	state, err := middleware.AccountDBManagerInstance.GetAccountDBByHash(parent.StateTree)
+	if err != nil {
+		return nil, err
+	}
+	txs := types.Transactions(transactions)
+	if 0 != len(txs) {
+		sort.Sort(txs)
+	}
+	bh := types.BlockHeader{
+		CurTime:    timestamp,
+		Height:     height,
+		ProveValue: proveValue,
+		Castor:     castor,
+		GroupId:    groupid,
+		TotalQN:    parent.TotalQN + qn,
+		StateTree:  common.BytesToHash(parent.StateTree.Bytes()),
+		PreHash:    parent.Hash,
+		PreTime:    parent.CurTime,
+	}
+	bh.RequestIds = getRequestIdFromTransactions(txs, parent.RequestIds)
+	block := new(types.Block)
+	block.Transactions = txs
+	if common.IsProposal020() {
+		transactionHashes := make([]common.Hashes, len(txs))
+		for i, transaction := range txs {
+			hashes := common.Hashes{}
+			hashes[0] = transaction.Hash
+			hashes[1] = transaction.SubHash
+			transactionHashes[i] = hashes
+		}
+		bh.Transactions = transactionHashes
+		bh.TxTree = calcTxTree(txs)
+		bh.ReceiptTree = common.Hash{}
+		bh.StateTree = common.Hash{}
+		bh.EvictedTxs = make([]common.Hash, 0)
+		bh.Hash = bh.GenHash()
+	}
+	block.Header = &bh
+
+	executor := newVMExecutor(state, block, "casting")
+	stateRoot, evictedTxs, executed, receipts := executor.Execute()
+	if !common.IsProposal020() || common.IsProposal023() {
+		transactionHashes := make([]common.Hashes, len(executed))
+		block.Transactions = executed
+		for i, transaction := range executed {
+			hashes := common.Hashes{}
+			hashes[0] = transaction.Hash
+			hashes[1] = transaction.SubHash
+			transactionHashes[i] = hashes
+		}
+		block.Header.Transactions = transactionHashes
+		block.Header.TxTree = calcTxTree(block.Transactions)
+	}
+	block.Header.EvictedTxs = evictedTxs
+	block.Header.StateTree = stateRoot
+	block.Header.ReceiptTree = calcReceiptsTree(receipts)
+	block.Header.Hash = block.Header.GenHash()
+
+	root, err := state.Commit(true)
+	if err != nil {
+		return nil, err
+	}
+	if err = middleware.AccountDBManagerInstance.GetTrieDB().Commit(root, false); err != nil {
+		return nil, err
+	}
+	return block, nil
 }
